@@ -200,7 +200,7 @@ DUR_CLSE = ('C11', 'duration', 'implies(%s, G.now - old(G.now) <= 7 * %s + 6 * %
 contract('AdbDevice._okay',
          real=dev('_okay'),
          params={'self': 'obj:AdbDevice', 'adb_info': 'obj:AdbInfo'},
-         props=['C04', 'C01', 'C12', 'C11', 'C15'],
+         props=['C04', 'C01', 'C12', 'C11', 'C15', 'C13'],
          requires=STREAM_OK[:1] + [NOLOCK],
          modifies=IO_MOD,
          ensures=[('C04,C15', 'one-OKAY-with-local-then-remote-id', "G.peer_rx == old(G.peer_rx) + frame(OKAY, adb_info.local_id, adb_info.remote_id, b'')"),
@@ -212,7 +212,7 @@ contract('AdbDevice._read_until',
          real=dev('_read_until'),
          params={'self': 'obj:AdbDevice', 'expected_cmds': 'cmdset', 'adb_info': 'obj:AdbInfo'},
          returns='tuple[bytes,bytes]',
-         props=['C04', 'C01', 'C12', 'C08', 'C10', 'C11', 'C15'],
+         props=['C04', 'C01', 'C12', 'C08', 'C10', 'C11', 'C15', 'C13'],
          requires=STREAM_OK + [NOLOCK],
          modifies=IO_MOD + RD_MOD,
          ghost_exit=[('G.sgot', 'store(G.sgot, {0}, G.sgot[{0}] + ite(result[0] == WRTE, len(result[1]), 0))'.format(LID))],
@@ -229,7 +229,7 @@ contract('AdbDevice._read_until',
 contract('AdbDevice._clse',
          real=dev('_clse'),
          params={'self': 'obj:AdbDevice', 'adb_info': 'obj:AdbInfo'},
-         props=['C04', 'C12', 'C08', 'C09', 'C11', 'C15'],
+         props=['C04', 'C12', 'C08', 'C09', 'C11', 'C15', 'C13'],
          requires=STREAM_OK + [NOLOCK],
          modifies=IO_MOD + RD_MOD,
          ensures=[('C04,C15', 'exactly-one-CLSE-sent', "G.peer_rx == old(G.peer_rx) + frame(CLSE, adb_info.local_id, adb_info.remote_id, b'')"),
@@ -245,7 +245,7 @@ contract('AdbDevice._open',
          real=dev('_open'),
          params={'self': 'obj:AdbDevice', 'destination': 'bytes', 'transport_timeout_s': 'opt[real]', 'read_timeout_s': 'real', 'timeout_s': 'opt[real]'},
          returns='obj:AdbInfo',
-         props=['C14', 'C04', 'C01', 'C11', 'C12', 'C06', 'C15'],
+         props=['C14', 'C04', 'C01', 'C11', 'C12', 'C06', 'C15', 'C13'],
          requires=['self._local_id >= 0 and self._local_id < 2**32', 'G.rpos >= 0 and G.rpos <= len(G.dev)', NOLOCK],
          modifies=OPEN_MOD,
          ghost_exit=[('G.spos', 'store(G.spos, self._local_id, G.sgot[self._local_id])'),
@@ -283,7 +283,7 @@ contract('AdbDevice._read_until_close',
          params={'self': 'obj:AdbDevice', 'adb_info': 'obj:AdbInfo'},
          gen={'elem': 'D_data({0}, {1} + _i)'.format(LID, DI0), 'joined': 'catD({0}, {1}, _n)'.format(LID, DI0),
               'facts': ['D_cmd({0}, {1} + _i) == WRTE'.format(LID, DI0)]},
-         props=['C01', 'C04', 'C11', 'C12', 'C15'],
+         props=['C01', 'C04', 'C11', 'C12', 'C15', 'C13'],
          requires=STREAM_OK + [NOLOCK],
          modifies=IO_MOD + RD_MOD,
          yield_havoc=[],
